@@ -39,7 +39,7 @@ SPECIAL = {
     "0004": [f"{z}00" + "7F" * 20 for z in ("00", "05", "0B")],
     "1F09": ["FF0000", "00FFFF", "F80000"],
     "0404": ["00230008000 1FF".replace(" ", ""), "012000080001FF"],
-    "3220": ["00C0050000", "0070050000", "00F0050000", "0040110000"],
+    "3220": ["00C0050000", "0070050000", "00F0050000", "0040110000", "0040116400", "00C0116500", "0040117F00", "00C011FF00", "00C00E6400", "00400E6500", "0040733200", "00C0736500"],
     "2349": ["0007D000FFFFFF", "007FFF00FFFFFF", "0007D0040000001E0A0C0207E8"],
     "313F": ["00FC0000001D0207E8"],
 }
@@ -105,6 +105,15 @@ def decode(frame: str, dtm=D0):
         return "raises", type(e).__name__, None
 
 
+def _ot_is_percentage(msg_id) -> bool:
+    from ramses_tx import opentherm as ot
+
+    try:
+        return ot.OPENTHERM_MESSAGES[int(msg_id)].get(ot.SENSOR) == ot.Sensor.PERCENTAGE
+    except (KeyError, TypeError, ValueError):
+        return False
+
+
 def check_payload(t: E.Tally, frame: str, p, msg, deep: bool = True) -> None:
     rep = {"frame": frame}
     code = frame.split()[-3]
@@ -133,6 +142,9 @@ def check_payload(t: E.Tally, frame: str, p, msg, deep: bool = True) -> None:
                 want = {"p0": seg[:2], "p4": seg[4:6], "i4": int(seg[4:6], 16) if len(seg) >= 6 else None}[rule]
                 if v != want and not (v == "HW" and want in ("FA", "00")):
                     t.bad(f"C05:index-not-from-frame:{code}:{k}", f"{frame!r} reports {k}={v!r}, the frame carries {want!r}", rep)
+            if code == "3220" and k == "value" and _ot_is_percentage(it.get("msg_id")) and v is not None and not isinstance(v, (str, bool, list)):
+                if not (0 <= v <= 1):
+                    t.bad(f"C05:ratio-out-of-range:3220:{it.get('msg_name')}", f"{frame!r} -> {it.get('msg_name')} value={v} (an OpenTherm percentage, reported as a ratio)", rep)
             if k in RATIO_KEYS and v is not None and not isinstance(v, (str, bool)):
                 if not (0 <= v <= 1):
                     t.bad(f"C05:ratio-out-of-range:{code}:{k}", f"{frame!r} -> {k}={v}", rep)
